@@ -22,7 +22,9 @@ EXPLANATION = (
     "their items, value column renamed, single-item dimension columns left out, and after a CSV text round trip: from_df must "
     "return the identical array, entry by entry (exact symbolic equality); the same after an earlier export/import, in the same "
     "process, of an array whose dimensions have the same names and items in another order (no state carried between calls). (3) No index array is cast to an integer type narrower "
-    "than the platform index. The pandas model follows documented behaviour; pandas itself is trusted.")
+    "than the platform index. The pandas model follows documented behaviour; pandas itself is trusted."
+    ' The worlds include a dimension mixing text and number items, a dimension whose items are 0, 1, 2 (like default row labels) and two dimensions over the same items (columns identified only by their items must then be refused).'
+)
 TECHNIQUE = "static analysis: abstract interpretation of export/import code over symbolic cell values with a model of the pandas operations in use; round trips decided exactly"
 
 ARRAYS_QUICK = [("a",), ("t", "a"), ("a", "t", "b"), ("s", "t"), ("n", "a"), ("b", "s", "a"), ("m", "a"), ("z",), ("z", "s")]
